@@ -189,12 +189,22 @@ ROUND10 = {
  "C19": " Good replies that list nobody.",
  "C20": " Real-socket run under the paused clock: a peer that floods requests and then neither reads nor writes.",
 }
+ROUND11 = {
+ "C03": " Piece lengths above 256 KiB.",
+ "C04": " Deep paths (31..256 harmless components in front of the parent components).",
+ "C06": " Bursts of up to 1000 complete unknown-kind messages in one read.",
+ "C09": " Uploads from a piece of more than 2 MiB.",
+ "C12": " A storage fault at the moment a piece completes.",
+ "C15": " Wide containers (254..1000 sibling containers).",
+ "C16": " Byte strings of 4 KiB .. 1 MiB in four positions.",
+ "C18": " Question mark only in the fragment; binary percent-escapes in existing parameters.",
+}
 
 def main():
     checks = []
     for pid in sorted(CHECKS):
         level, technique, engine, text, note, ref = CHECKS[pid]
-        text = text + ROUND3.get(pid, "") + ROUND4.get(pid, "") + ROUND5.get(pid, "") + ROUND5B.get(pid, "") + ROUND6.get(pid, "") + ROUND7.get(pid, "") + ROUND8.get(pid, "") + ROUND9.get(pid, "") + ROUND10.get(pid, "")
+        text = text + ROUND3.get(pid, "") + ROUND4.get(pid, "") + ROUND5.get(pid, "") + ROUND5B.get(pid, "") + ROUND6.get(pid, "") + ROUND7.get(pid, "") + ROUND8.get(pid, "") + ROUND9.get(pid, "") + ROUND10.get(pid, "") + ROUND11.get(pid, "")
         checks.append({
             "property_id": pid,
             "quick_cmd": "./check %s --tier quick" % pid,
